@@ -9,6 +9,7 @@ import (
 	"fmt"
 	"os"
 	"sort"
+	"strconv"
 	"strings"
 	"sync"
 	"testing"
@@ -264,8 +265,25 @@ func TestReplay(t *testing.T) {
 				}
 			}
 		case "mask":
-			if n, err := ttlv.BitmaskByStr(c.Tag, c.VName); err != nil || int(n) != c.Value {
-				probs = append(probs, fmt.Sprintf("BitmaskByStr=%d,%v", n, err))
+			{
+				// (a value of several tokens is the union of what each token denotes)
+				var n int32
+				var err error
+				for _, tok := range strings.Split(c.VName, "|") {
+					var b int32
+					if strings.HasPrefix(tok, "0x") { // a position without a name: BitmaskByStr is the lookup of names
+						u, _ := strconv.ParseUint(tok[2:], 16, 32)
+						n |= int32(uint32(u))
+						continue
+					}
+					if b, err = ttlv.BitmaskByStr(c.Tag, tok); err != nil {
+						break
+					}
+					n |= b
+				}
+				if err != nil || int(n) != c.Value {
+					probs = append(probs, fmt.Sprintf("BitmaskByStr=%d,%v", n, err))
+				}
 			}
 			if s := string(ttlv.AppendBitmaskString(nil, c.Tag, int32(c.Value), "|")); s != c.VName {
 				probs = append(probs, fmt.Sprintf("bit-written-as-%q", s))
@@ -280,7 +298,7 @@ func TestReplay(t *testing.T) {
 			}
 			if typed != nil {
 				xml := string(ttlv.MarshalXML(typed))
-				if !strings.Contains(xml, c.VName) {
+				if !strings.Contains(xml, strings.ReplaceAll(c.VName, "|", " ")) {
 					probs = append(probs, "xml-mask-not-written-by-name:"+xml)
 				}
 				switch c.Tag {
